@@ -322,12 +322,18 @@ def gen_cm3(rng, small=True):
     linbuf = [0] * 160
     style = rng.choice(("runs", "flat", "mixed"))
     praw = rng.choice((0.0, 0.1, 0.5, 1.0))
+    blank_top = rng.random() < 0.5
     for p in range(pages):
         smap.append((len(data), "page"))
         data.append(192)
         pix = _pixels(rng, 192 * 160, style)
         for y in range(192):
             want = list(pix[y * 160:(y + 1) * 160])
+            if y == 0 and blank_top:
+                # a blank (colour 0) top line: decoded entirely from the initial line buffer
+                want = [0] * 160
+                for _ in range(rng.randint(0, 3)):
+                    want[rng.randrange(160)] = rng.getrandbits(8)
             # vertical coherence so that "copy from above" is exercised
             if y and rng.random() < 0.4:
                 want = list(linbuf)
